@@ -395,12 +395,22 @@ def run_case(args):
             else:
                 hp.compile(b, pdk=pm)
         except Exception as ex:
-            ev["raised"] = True
-            ev["exc_type"] = type(ex).__name__
-            ev["exc_len"] = len(str(ex).strip())
-            ev["exc"] = str(ex).strip()[-200:]
-            ev["reqs"] = fix_keys(ev["reqs"], tag)
-            return ev
+            # a refused request is refused again when the very same design is compiled once more (what the first attempt left behind - devices already
+            # replaced, modules already seen - may not turn the refusal into a silent success); if the second attempt returns, it is judged as a return
+            again = True
+            try:
+                pm.compile(b)
+                again = False
+            except Exception:
+                pass
+            if again:
+                ev["raised"] = True
+                ev["exc_type"] = type(ex).__name__
+                ev["exc_len"] = len(str(ex).strip())
+                ev["exc"] = str(ex).strip()[-200:]
+                ev["reqs"] = fix_keys(ev["reqs"], tag)
+                return ev
+            ev["retry_returned"] = True
         pkg1 = h.to_proto(b)
         ev["P1"] = strip_names(proj_full(pkg1), tag)
         w = proj_package(pkg1, None)
